@@ -39,7 +39,10 @@ static const std::vector<std::string> kKeys = {"a", "b", "c", "d", "e", "key", "
                                                 near_key(15, 6, '1'), near_key(15, 6, '2'), near_key(33, 32, '1'), near_key(33, 32, '2'),
                                                 near_key(66, 33, '1'), near_key(66, 33, '2'), near_key(70, 36, '1'), near_key(70, 36, '2'),
                                                 near_key(97, 64, '1'), near_key(97, 64, '2'), near_key(97, 70, '\xc3'),
-                                                std::string("a\0b", 3), std::string("a\0c", 3), std::string("\0", 1)};
+                                                std::string("a\0b", 3), std::string("a\0c", 3), std::string("\0", 1),
+                                                "user", "user_id", "user_id_hash", "user_id_hash_value"};
+// borrowed (copyKey=false) keys of this family are handed to the library as slices of ONE buffer: same start address, four lengths
+static const char kSliceBase[] = "user_id_hash_value";
 static const std::vector<std::string> kConstStrings = {"", "const", "const string with \"quotes\" and \\ backslash",
                                                         "0123456789abcdef0123456789abcdef0123456789abcdef0123456789abcdef!"};
 
@@ -265,7 +268,12 @@ struct World {
         if (old >= 16 && n->Capacity() == old) ev("member-growth-across-capacity");
         if (exists) ev("duplicate-key-added");
         if (m->has_map) ev("add-with-map");
-        auto it = n->AddMember(StringView(kp->data(), kp->size()), std::move(val), alloc, copy_key);
+        StringView kview(kp->data(), kp->size());
+        if (!copy_key && kp->size() <= sizeof kSliceBase - 1 && kp->size() >= 4 && memcmp(kp->data(), kSliceBase, kp->size()) == 0) {
+          kview = StringView(kSliceBase, kp->size());
+          ev("borrowed-key-slice-of-shared-buffer");
+        }
+        auto it = n->AddMember(kview, std::move(val), alloc, copy_key);
         m->o.emplace_back(key, v);
         if (it != n->MemberEnd() - 1) return "!AddMember did not return an iterator to the new last member";
         if (!val.IsNull()) return "!AddMember left the moved-from value non-null";
